@@ -87,13 +87,15 @@ Section Upper.
 
   Hypothesis Hiif : r_iif R = [].
 
-  Lemma get_pkg_upper w sched dq sel ex dq' sel' i deps :
-    get_pkg R w sched dq sel ex = Ok (dq', sel', i, deps) -> lists_in R T (s_name w) -> In i T /\ incl deps T.
+  Lemma get_pkg_upper w dq sel ex dq' sel' i deps :
+    get_pkg R w dq sel ex = Ok (dq', sel', i, deps) -> lists_in R T (s_name w) -> In i T /\ incl deps T.
   Proof.
     intros H Hw. unfold get_pkg, get_pkg_core in H.
     destruct (resolve_package R dq w) as [i0| | |] eqn:ER; cbn [rbind] in H; try discriminate.
     destruct (get_deps (fuel_bound R) R i0 (s_pin w) [] _) as [[st' ds]| | |] eqn:EG; cbn [rbind] in H; try discriminate.
-    destruct (dedup_by_name R ds) as [l added] eqn:ED. cbn [rbind] in H. rewrite (iif_loop_nil _ _ _ _ Hiif) in H.
+    destruct (dedup_by_name R ds) as [l added] eqn:ED. cbn [rbind] in H.
+    destruct (iif_loop (fuel_bound R) R 0 l added) as [deps0| | |] eqn:EI; cbn [rbind] in H; try discriminate.
+    apply (iif_loop_nil_ok _ _ _ _ _ _ Hiif) in EI. subst deps0.
     assert (Hl : forall j, In j l -> In j ds) by (intros j Hj; apply (dedup_sub R); rewrite ED; exact Hj).
     injection H as <- <- <- <-.
     assert (Hi : In i0 T).
@@ -105,21 +107,21 @@ Section Upper.
     split; [exact Hi|]. intros j Hj. eapply get_deps_upper; [exact EG | exact Hi | apply Hl; exact Hj].
   Qed.
 
-  Lemma phase2_upper : forall ws scheds dq sel acc S,
-    phase2 R ws scheds dq sel acc = Ok S -> (forall w, In w ws -> lists_in R T (s_name w)) ->
+  Lemma phase2_upper : forall ws dq sel acc S,
+    phase2 R ws dq sel acc = Ok S -> (forall w, In w ws -> lists_in R T (s_name w)) ->
     incl (fst (fst acc)) T -> incl S T.
   Proof.
-    induction ws as [|w ws IH]; intros scheds dq sel acc S H Hws Hacc.
+    induction ws as [|w ws IH]; intros dq sel acc S H Hws Hacc.
     - simpl in H. inversion H; subst. exact Hacc.
     - cbn [phase2] in H.
-      destruct (get_pkg R w (hd [] scheds) dq sel (snd acc)) as [[[[dq' sel'] i] deps]| | |] eqn:EG; cbn [rbind] in H; try discriminate.
-      destruct (get_pkg_upper _ _ _ _ _ _ _ _ _ EG (Hws w (or_introl eq_refl))) as [Hi Hd].
+      destruct (get_pkg R w dq sel (snd acc)) as [[[[dq' sel'] i] deps]| | |] eqn:EG; cbn [rbind] in H; try discriminate.
+      destruct (get_pkg_upper _ _ _ _ _ _ _ _ EG (Hws w (or_introl eq_refl))) as [Hi Hd].
       eapply IH; [exact H | intros w' Hw'; apply Hws; right; exact Hw' |].
       intros m Hm. apply track_members in Hm. destruct Hm as [Hm| ->]; [|exact Hi].
       apply track_fold_members in Hm. destruct Hm as [Hm|Hm]; [apply Hacc; exact Hm | apply Hd; exact Hm].
   Qed.
 
-  Theorem resolve_upper W dq0 scheds S : resolve_with R W dq0 scheds = Ok S ->
+  Theorem resolve_upper W dq0 S : resolve_with R W dq0 = Ok S ->
     (forall w, In w W -> lists_in R T (s_name (cook_str w))) -> incl S T.
   Proof.
     unfold resolve_with. intros H HW.
@@ -154,26 +156,26 @@ Section SameMembers.
   Definition names_member (e : string) (j : pid) : Prop :=
     d_neg (cook_dep e) = None /\ s_name (cook_str e) = nm R j.
 
-  Theorem same_members W dq0 scheds S L :
-    envelope_b U W = true -> resolve U W dq0 scheds = Ok S ->
+  Theorem same_members W dq0 S L :
+    envelope_b U W = true -> resolve U W dq0 = Ok S ->
     (forall e, In e L -> exists j, In j S /\ names_member e j) ->
     (forall j, In j S -> exists e, In e L /\ names_member e j) ->
     envelope_b U L = true /\
-    forall scheds' S', resolve U L dq0 scheds' = Ok S' -> forall j, In j S' <-> In j S.
+    forall S', resolve U L dq0 = Ok S' -> forall j, In j S' <-> In j S.
   Proof.
     intros HE H HL1 HL2. pose proof (envelope_facts U W HE) as EF.
-    pose proof (members_lemma U W dq0 scheds S H) as [_ HV].
+    pose proof (members_lemma U W dq0 S H) as [_ HV].
     (* the lock world is inside the envelope *)
     assert (HEL : envelope_b U L = true).
     { unfold envelope_b, envelope_c in *. apply andb_true_iff in HE. destruct HE as [HE _]. rewrite HE. cbn [andb].
       apply forallb_forall. intros cd Hcd. apply in_map_iff in Hcd. destruct Hcd as [e [<- He]].
       destruct (HL1 e He) as [j [Hj [N1 N2]]]. rewrite N1. unfold cook_dep; cbn [d_pos].
       unfold versioned_on_real_b. rewrite N2, (own_single j EF (HV j Hj)). unfold nm. rewrite String.eqb_refl. apply orb_true_r. }
-    split; [exact HEL|]. intros scheds' S' H' j. split.
+    split; [exact HEL|]. intros S' H' j. split.
     - (* nothing beyond the members: S is closed under the unique providers *)
-      revert j. change (incl S' S). apply (resolve_upper R S) with (W := L) (dq0 := dq0) (scheds := scheds').
+      revert j. change (incl S' S). apply (resolve_upper R S) with (W := L) (dq0 := dq0).
       + intros m d Hm Hd l x El Hx. destruct (ef_single _ EF _ _ El) as [x0 ->]. destruct Hx as [<-|[]].
-        destruct (resolve_closure U EF W dq0 scheds S H m Hm d Hd) as [y [Hy Sy]].
+        destruct (resolve_closure U EF W dq0 S H m Hm d Hd) as [y [Hy Sy]].
         assert (Vy : valid R y) by (apply valid_new; apply HV; exact Hy).
         rewrite <- (the_provider U _ _ y EF El Vy (pkg_satisfies_b_names _ _ Sy)). exact Hy.
       + apply iif_nil. exact EF.
@@ -182,7 +184,7 @@ Section SameMembers.
         inversion El; subst l. destruct Hx as [<-|[]]. exact Hj.
     - (* every member is asked for by name, and the candidate chosen for a request is a member *)
       intros Hj. destruct (HL2 j Hj) as [e [He [_ N2]]].
-      destruct (closed_partial_lemma U L dq0 scheds' S' HEL H') as [_ [_ C]].
+      destruct (closed_partial_lemma U L dq0 S' HEL H') as [_ [_ C]].
       destruct (C e He) as [dq [i [_ [Hi HiS]]]]. unfold candidates in Hi. rewrite N2, (own_single j EF (HV j Hj)) in Hi.
       apply filter_packages_sub in Hi. destruct Hi as [[<-|[]] _]. exact HiS.
   Qed.
@@ -223,13 +225,13 @@ Proof.
     rewrite nm_new_resolver. reflexivity.
 Qed.
 
-Theorem fixpoint_same_members U W dq0 scheds S :
-  envelope_b U W = true -> resolve U W dq0 scheds = Ok S ->
+Theorem fixpoint_same_members U W dq0 S :
+  envelope_b U W = true -> resolve U W dq0 = Ok S ->
   (forall j, In j S -> lockable (nth j U dummy_pkg)) ->
   envelope_b U (lock_world U dq0 S) = true /\
-  forall scheds' S', resolve U (lock_world U dq0 S) dq0 scheds' = Ok S' -> forall j, In j S' <-> In j S.
+  forall S', resolve U (lock_world U dq0 S) dq0 = Ok S' -> forall j, In j S' <-> In j S.
 Proof.
-  intros HE H HL. apply (same_members U W dq0 scheds S _ HE H).
+  intros HE H HL. apply (same_members U W dq0 S _ HE H).
   - intros e He. unfold lock_world, Lock.lock_of in He. rewrite map_map in He. apply in_map_iff in He.
     destruct He as [j [<- Hj]]. exists j. split; [exact Hj | apply lock_entry_names; apply HL; exact Hj].
   - intros j Hj. exists (Lock.lock_entry_of (cand_at U dq0 j)). split.
@@ -273,41 +275,23 @@ Proof.
 Qed.
 
 (* the statement of Properties/C09.v *)
-Lemma fixpoint_resolver_partial_lemma (U : universe) W dq0 scheds S :
-  envelope_b U W = true -> resolve U W dq0 scheds = Ok S ->
+Lemma fixpoint_resolver_partial_lemma (U : universe) W dq0 S :
+  envelope_b U W = true -> resolve U W dq0 = Ok S ->
   (forall j, In j S -> lockable (nth j U dummy_pkg)) ->
   Closed U W (pkgs_of U S) /\
   lock_world U dq0 S = Lock.lock_of (List.map (cand_at U dq0) S) /\
   envelope_b U (lock_world U dq0 S) = true /\
   (forall j k', In j S -> In k' (lock_universe U dq0) ->
      LockProofs.admitted (lock_universe U dq0) (Lock.lock_entry_of (cand_at U dq0 j)) k' -> k' = cand_at U dq0 j) /\
-  (forall scheds' S', resolve U (lock_world U dq0 S) dq0 scheds' = Ok S' -> forall j, In j S' <-> In j S).
+  (forall S', resolve U (lock_world U dq0 S) dq0 = Ok S' -> forall j, In j S' <-> In j S).
 Proof.
-  intros HE H HL. destruct (fixpoint_same_members U W dq0 scheds S HE H HL) as [A B].
-  split; [exact (closed_full_lemma U W dq0 scheds S HE H)|]. split; [reflexivity|]. split; [exact A|]. split; [|exact B].
+  intros HE H HL. destruct (fixpoint_same_members U W dq0 S HE H HL) as [A B].
+  split; [exact (closed_full_lemma U W dq0 S HE H)|]. split; [reflexivity|]. split; [exact A|]. split; [|exact B].
   intros j k' Hj Hk' Ha.
-  exact (entry_admits_only_member U W dq0 j k' HE (proj2 (members_lemma U W dq0 scheds S H) j Hj) (HL j Hj) Hk' Ha).
+  exact (entry_admits_only_member U W dq0 j k' HE (proj2 (members_lemma U W dq0 S H) j Hj) (HL j Hj) Hk' Ha).
 Qed.
 
 (* ================= Part 3: the lock need not resolve ===================================== *)
-(* without install_if packages the visit schedules are irrelevant *)
-Lemma phase2_sched_irrelevant R : r_iif R = [] -> forall ws scheds scheds' dq sel acc,
-  phase2 R ws scheds dq sel acc = phase2 R ws scheds' dq sel acc.
-Proof.
-  intros Hiif. induction ws as [|w ws IH]; intros scheds scheds' dq sel acc; [reflexivity|].
-  cbn [phase2]. unfold get_pkg. destruct (get_pkg_core R w dq sel (snd acc)) as [[[[[dq' sel'] i] l] added]| | |]; cbn [rbind]; try reflexivity.
-  rewrite !(iif_loop_nil _ _ _ _ Hiif). apply IH.
-Qed.
-
-Lemma resolve_sched_irrelevant U W dq0 scheds scheds' : r_iif (new_resolver U) = [] ->
-  resolve U W dq0 scheds = resolve U W dq0 scheds'.
-Proof.
-  intros Hiif. unfold resolve, resolve_with.
-  destruct (constrain _ _ dq0) as [dq1| | |]; cbn [rbind]; try reflexivity.
-  destruct (phase1 _ _ _ dq1 []) as [[dq2 depmap]| | |]; cbn [rbind]; try reflexivity.
-  apply phase2_sched_irrelevant. exact Hiif.
-Qed.
-
 Fixpoint insert_everywhere {A} (x : A) (l : list A) : list (list A) :=
   match l with
   | [] => [[x]]
@@ -331,28 +315,22 @@ Definition U_conflict : universe :=
 
 Lemma fixpoint_finds_locked_refuted :
   let U := U_conflict in let W := ["a"] in let S := [1; 2; 0] in
-  envelope_b U W = true /\ resolve U W [] [] = Ok S /\ Closed U W (pkgs_of U S) /\
+  envelope_b U W = true /\ resolve U W [] = Ok S /\ Closed U W (pkgs_of U S) /\
   (forall j, In j S -> lockable (nth j U dummy_pkg)) /\
   (forall j, In j S -> LockProofs.admitted (lock_universe U []) (Lock.lock_entry_of (cand_at U [] j)) (cand_at U [] j)) /\
   lock_world U [] S = ["b=1.0"; "c=1.0"; "a=1.0"] /\
-  forall scheds,
-    resolve U (lock_world U [] S) [] scheds = Err /\
-    resolve U ["a=1.0"; "b=1.0"; "c=1.0"] [] scheds = Err /\
-    List.map (fun L => resolve U L [] scheds) (all_orders (lock_world U [] S)) = [Err; Err; Err; Ok S; Err; Err].
+    resolve U (lock_world U [] S) [] = Err /\
+    resolve U ["a=1.0"; "b=1.0"; "c=1.0"] [] = Err /\
+    List.map (fun L => resolve U L []) (all_orders (lock_world U [] S)) = [Err; Err; Err; Ok S; Err; Err].
 Proof.
   cbv zeta.
   assert (HE : envelope_b U_conflict ["a"] = true) by (vm_compute; reflexivity).
-  assert (HR : resolve U_conflict ["a"] [] [] = Ok [1; 2; 0]) by (vm_compute; reflexivity).
-  split; [exact HE|]. split; [exact HR|]. split; [exact (closed_full_lemma _ _ [] [] _ HE HR)|].
+  assert (HR : resolve U_conflict ["a"] [] = Ok [1; 2; 0]) by (vm_compute; reflexivity).
+  split; [exact HE|]. split; [exact HR|]. split; [exact (closed_full_lemma _ _ [] _ HE HR)|].
   split.
   { intros j [<-|[<-|[<-|[]]]]; (split; [|split]); vm_compute; repeat split; discriminate. }
   split.
   { intros j [<-|[<-|[<-|[]]]]; vm_compute; tauto. }
   split; [vm_compute; reflexivity|].
-  assert (Hiif : r_iif (new_resolver U_conflict) = []) by (vm_compute; reflexivity).
-  intros scheds. split; [|split].
-  - rewrite (resolve_sched_irrelevant _ _ _ scheds [] Hiif). vm_compute. reflexivity.
-  - rewrite (resolve_sched_irrelevant _ _ _ scheds [] Hiif). vm_compute. reflexivity.
-  - rewrite (map_ext _ (fun L => resolve U_conflict L [] [])); [vm_compute; reflexivity|].
-    intros L. apply resolve_sched_irrelevant. exact Hiif.
+  split; [|split]; vm_compute; reflexivity.
 Qed.
